@@ -33,6 +33,28 @@ impl<Item, Err, O: Observer<Item, Err>> Observer<Item, Err>
   fn is_finished(&self) -> bool { true }
 }
 
+/// C16.E1 `under`: hides the end of the stream behind an own condition (`down && own`)
+pub struct AndFinishedObserver<O>(O, Vec<u8>);
+impl<Item, Err, O: Observer<Item, Err>> Observer<Item, Err>
+  for AndFinishedObserver<O>
+{
+  fn next(&mut self, value: Item) { self.0.next(value) }
+  fn error(self, err: Err) { self.0.error(err) }
+  fn complete(self) { self.0.complete() }
+  fn is_finished(&self) -> bool { self.0.is_finished() && self.1.iter().all(|b| *b == 0) }
+}
+
+/// C16.E1 `extra` through a call: `down || own()`
+pub struct OrFinishedObserver<O>(O, Vec<u8>);
+impl<Item, Err, O: Observer<Item, Err>> Observer<Item, Err>
+  for OrFinishedObserver<O>
+{
+  fn next(&mut self, value: Item) { self.0.next(value) }
+  fn error(self, err: Err) { self.0.error(err) }
+  fn complete(self) { self.0.complete() }
+  fn is_finished(&self) -> bool { self.0.is_finished() || (!self.1.is_empty() && self.1.iter().all(|b| *b == 0)) }
+}
+
 /// C03.S14: vacates a shared slot for the duration of a call and refills it afterwards
 pub fn ctl_flush_unlocked<T>(cell: &MutArc<Option<T>>, flush: impl FnOnce(&mut T)) {
   let taken = cell.rc_deref_mut().take();
